@@ -152,6 +152,21 @@ mod h {
         core::mem::forget((x, y));
     }
 
+    /// ... for strings of DIFFERENT lengths too (a shorter string can be the greater one: "b" > "ab")
+    fn cmp_lengths<const N: usize, const M: usize>() {
+        let a: [u8; N] = kani::any(); let b: [u8; M] = kani::any();
+        kani::assume(ref_utf8(&a) && ref_utf8(&b));
+        let x = ByteString::try_from(&a[..]).unwrap(); let y = ByteString::try_from(&b[..]).unwrap();
+        let (sx, sy) = (core::str::from_utf8(&a).unwrap(), core::str::from_utf8(&b).unwrap());
+        assert!(x.cmp(&y) == sx.cmp(sy) && y.cmp(&x) == sy.cmp(sx), "Ord agrees with str");
+        assert!(x.partial_cmp(&y) == sx.partial_cmp(sy), "PartialOrd agrees with str");
+        assert!((x == y) == (sx == sy) && (x < y) == (sx < sy), "Eq / < agree with str");
+        kani::cover!(sx > sy, "the shorter or longer string is the greater one");
+        core::mem::forget((x, y));
+    }
+    #[kani::proof] #[kani::unwind(8)] fn c20_cmp_lengths_2_1() { cmp_lengths::<2, 1>() }
+    #[kani::proof] #[kani::unwind(8)] fn c20_cmp_lengths_1_3() { cmp_lengths::<1, 3>() }
+
     /// slice_ref of any sub-slice of the string gives that sub-slice
     #[kani::proof]
     #[kani::unwind(8)]
